@@ -300,27 +300,83 @@ theorem foreign_finalizers_untouched (f : String) (l : List String) :
     funext x
     simp
 
-/-- The carry-forward cycle: the remaining fns of a conflicting call, fed into the next cycle's
-    patch (`Patch(memory.remaining_patch, body=fresh body)`), nobody interfering: afterwards the object
-    holds exactly ONE application of the fns to the then-fresh finalizer list (or has been released
-    by it), and nothing remains in the memory — not lost, not carried any further. -/
-theorem carry_forward (sub : Bool) (fns : List Fn) (o : Obj) (s : Server) (ho : s.obj = some o) :
-    (cycle sub (some fns) [] [] o Env.quiet s).2 = none ∧
-    ((∃ o', (cycle sub (some fns) [] [] o Env.quiet s).1.server.obj = some o' ∧ o'.uid = o.uid ∧
-        o'.fins = (applyFns fns o).fins) ∨
-     ((cycle sub (some fns) [] [] o Env.quiet s).1.server.obj = none ∧ o.marked = true ∧
-        (applyFns fns o).fins = [])) := by
+/-- What is carried: after a call that returned a remaining patch, `process_resource_event` keeps
+    exactly the handler-supplied fns of it, in order (the framework's own finalizer edits are dropped:
+    they are decided anew in every cycle), `_daemon/_timer` keep all of it. -/
+theorem carried_after_conflict (sub : Bool) (mem : Option (List Fn)) (fields : Kvs) (fns : List Fn)
+    (orig : Obj) (env : Env) (s : Server) (rem : Option (List Fn)) (b : Option Obj)
+    (hne : (nextPatch mem fields fns).isEmpty = false)
+    (hout : (patchObj sub (nextPatch mem fields fns) orig env s).outcome = .ok rem b) :
+    (cycle sub mem fields fns orig env s).2 = carried rem ∧
+    (daemonCycle sub mem fields fns orig env s).2 = rem ∧
+    (∀ l, carried rem = some l → l ≠ [] ∧ ∀ f, f ∈ l ↔ (∃ r, rem = some r ∧ f ∈ r) ∧ f.isFramework = false) := by
+  refine ⟨?_, ?_, ?_⟩
+  · simp [cycle, cycleOf, hne, hout, memoryAfter]
+  · simp [daemonCycle, cycleOf, hne, hout, memoryAfter]
+  · intro l hl
+    cases rem with
+    | none => simp [carried] at hl
+    | some r =>
+      simp only [carried] at hl
+      split at hl
+      · cases hl
+      · rename_i hne'
+        cases hl
+        refine ⟨by intro e; rw [e] at hne'; simp at hne', ?_⟩
+        intro f
+        simp [List.mem_filter]
+
+/-- The framework's own finalizer edits never stay in the memory of `process_resource_event`,
+    whatever happened to the call (conflict, 404, exception, success). -/
+theorem framework_fns_not_carried (sub : Bool) (mem : Option (List Fn)) (fields : Kvs) (fns : List Fn)
+    (orig : Obj) (env : Env) (s : Server)
+    (hmem : ∀ l, mem = some l → ∀ f ∈ l, f.isFramework = false) :
+    ∀ l, (cycle sub mem fields fns orig env s).2 = some l → ∀ f ∈ l, f.isFramework = false := by
+  intro l hl f hf
+  unfold cycle cycleOf at hl
+  simp only at hl
+  split at hl
+  · cases hl
+  · unfold memoryAfter at hl
+    split at hl
+    · rename_i rem _ _
+      simp only [Bool.false_eq_true, if_false] at hl
+      cases rem with
+      | none => simp [carried] at hl
+      | some r =>
+        simp only [carried] at hl
+        split at hl
+        · cases hl
+        · cases hl
+          simp [List.mem_filter] at hf
+          exact hf.2
+    · cases hl
+    · exact hmem l hl f hf
+
+/-- The carry-forward cycle. The carried (handler-supplied) fns `mem`, fed into the next cycle's patch
+    (`Patch(memory.remaining_patch, body=fresh body)`) together with whatever this cycle queues itself
+    (`newfns`: the framework's finalizer decision on the fresh state), nobody interfering: afterwards the
+    object holds exactly ONE application of these fns to the then-fresh finalizer list (or has been
+    released by it), and nothing remains in the memory — not lost, not carried any further. -/
+theorem carry_forward (sub : Bool) (mem : Option (List Fn)) (newfns : List Fn) (o : Obj) (s : Server)
+    (ho : s.obj = some o) :
+    (cycle sub mem [] newfns o Env.quiet s).2 = none ∧
+    ((∃ o', (cycle sub mem [] newfns o Env.quiet s).1.server.obj = some o' ∧ o'.uid = o.uid ∧
+        o'.fins = (applyFns (mem.getD [] ++ newfns) o).fins) ∨
+     ((cycle sub mem [] newfns o Env.quiet s).1.server.obj = none ∧ o.marked = true ∧
+        (applyFns (mem.getD [] ++ newfns) o).fins = [])) := by
+  generalize hfns : mem.getD [] ++ newfns = fns
   cases fns with
   | nil =>
-    have e : cycle sub (some []) [] [] o Env.quiet s = (⟨[], s, .ok none none⟩, none) := by
-      simp [cycle, nextPatch, Patch.isEmpty]
+    have e : cycle sub mem [] newfns o Env.quiet s = (⟨[], s, .ok none none⟩, none) := by
+      simp [cycle, cycleOf, nextPatch, Patch.isEmpty, hfns]
     rw [e]
     exact ⟨rfl, Or.inl ⟨o, ho, rfl, rfl⟩⟩
   | cons f fs =>
-    have e : cycle sub (some (f :: fs)) [] [] o Env.quiet s =
+    have e : cycle sub mem [] newfns o Env.quiet s =
         (patchObj sub ⟨[], f :: fs⟩ o Env.quiet s,
-         memoryAfter (some (f :: fs)) (patchObj sub ⟨[], f :: fs⟩ o Env.quiet s).outcome) := by
-      simp [cycle, nextPatch, Patch.isEmpty]
+         memoryAfter false mem (patchObj sub ⟨[], f :: fs⟩ o Env.quiet s).outcome) := by
+      simp [cycle, cycleOf, nextPatch, Patch.isEmpty, hfns]
     rw [e]
     obtain ⟨hh, hout⟩ := quiet_fns_cycle sub (f :: fs) o s ho
     unfold patchObj
@@ -331,18 +387,67 @@ theorem carry_forward (sub : Bool) (fns : List Fn) (o : Obj) (s : Server) (ho : 
       · exact Or.inl ⟨x, hx, hu, hfx⟩
       · exact Or.inr ⟨hn, hm, hl⟩
 
--- non-vacuity: the server holds an object (with a foreign finalizer); `block` is carried
+-- non-vacuity: the server holds an object (with a foreign finalizer); a handler's finalizer edit is
+-- carried and applied once, next to the framework's fresh decision
 example : (⟨7, 1, some ⟨1, 7, false, ["other"], []⟩⟩ : Server).obj = some ⟨1, 7, false, ["other"], []⟩ := rfl
-example : ((cycle true (some [.block "f"]) [] [] ⟨1, 7, false, ["other"], []⟩ Env.quiet
-    ⟨7, 1, some ⟨1, 7, false, ["other"], []⟩⟩).1.server.obj.map (·.fins)) = some ["other", "f"] := by decide
+example : ((cycle true (some [.userFin true "u"]) [] [.block "kopf"] ⟨1, 7, false, ["other"], []⟩ Env.quiet
+    ⟨7, 1, some ⟨1, 7, false, ["other"], []⟩⟩).1.server.obj.map (·.fins)) = some ["other", "u", "kopf"] := by decide
+
+/-- The framework's finalizer edit after a conflict is RE-DECIDED, not re-applied. Relative to any
+    decision function `decide` (C06's decision block: the framework fns it queues for a body): whatever
+    happens to the cycle that queued `decide o₁` — a conflict included — nothing of it stays in the
+    memory; and the next cycle, evaluated on the fresh object `o`, leaves exactly ONE application of
+    `decide o` (the decision on the FRESH state) on the then-fresh finalizer list: the outdated decision
+    is neither written later nor lost, the current one is applied once. -/
+theorem finalizer_redecided (decide : Obj → List Fn) (hd : ∀ b, ∀ f ∈ decide b, f.isFramework = true)
+    (sub : Bool) (fields : Kvs) (o₁ : Obj) (env : Env) (s₁ : Server) (o : Obj) (s : Server) (ho : s.obj = some o) :
+    (cycle sub none fields (decide o₁) o₁ env s₁).2 = none ∧
+    (cycle sub none [] (decide o) o Env.quiet s).2 = none ∧
+    ((∃ o', (cycle sub none [] (decide o) o Env.quiet s).1.server.obj = some o' ∧ o'.uid = o.uid ∧
+        o'.fins = (applyFns (decide o) o).fins) ∨
+     ((cycle sub none [] (decide o) o Env.quiet s).1.server.obj = none ∧ o.marked = true ∧
+        (applyFns (decide o) o).fins = [])) := by
+  refine ⟨?_, ?_⟩
+  · cases hc : (cycle sub none fields (decide o₁) o₁ env s₁).2 with
+    | none => rfl
+    | some l =>
+      exfalso
+      unfold cycle cycleOf at hc
+      simp only at hc
+      split at hc
+      · cases hc
+      · unfold memoryAfter at hc
+        split at hc
+        · rename_i rem b hout
+          simp only [Bool.false_eq_true, if_false] at hc
+          -- a remaining patch holds the call's fns, all of them the framework's: nothing is carried
+          cases rem with
+          | none => simp [carried] at hc
+          | some r =>
+            have hr := (remaining_only_after_refusal sub _ o₁ env s₁ r b hout).1
+            simp only [nextPatch, Option.getD_none, List.nil_append] at hr
+            simp only [carried] at hc
+            split at hc
+            · cases hc
+            · rename_i hne
+              apply hne
+              rw [hr]
+              simp only [List.isEmpty_iff, List.filter_eq_nil_iff]
+              intro f hf
+              simp [hd o₁ f hf]
+        · cases hc
+        · cases hc
+  · simpa using carry_forward sub none (decide o) o s ho
 
 /-- With nothing remaining and nothing new the next cycle sends nothing: the effect is not repeated. -/
 theorem carry_forward_not_repeated (sub : Bool) (orig : Obj) (env : Env) (s : Server) :
-    cycle sub none [] [] orig env s = (⟨[], s, .ok none none⟩, none) := by
-  simp [cycle, nextPatch, Patch.isEmpty]
+    cycle sub none [] [] orig env s = (⟨[], s, .ok none none⟩, none) ∧
+    daemonCycle sub none [] [] orig env s = (⟨[], s, .ok none none⟩, none) := by
+  simp [cycle, daemonCycle, cycleOf, nextPatch, Patch.isEmpty]
 
 /-- The conflict may also hit AFTER the body JSON-patch was accepted (on the status JSON-patch): then
-    all fns are applied again in the next cycle. For the finalizer list this re-application is harmless:
+    the carried fns (the handler-supplied ones in `process_resource_event`, all of them in daemons and
+    timers) are applied again in the next cycle. For the finalizer list this re-application is harmless:
     membership after applying the fns twice is membership after applying them once… -/
 theorem reapply_membership (fns : List Fn) (o : Obj) (x : String) :
     x ∈ (applyFns fns (applyFns fns o)).fins ↔ x ∈ (applyFns fns o).fins := by
@@ -355,7 +460,7 @@ theorem reapply_membership (fns : List Fn) (o : Obj) (x : String) :
 theorem reapply_order_witness :
     ∃ (fns : List Fn) (o : Obj),
       (applyFns fns (applyFns fns o)).fins ≠ (applyFns fns o).fins := by
-  refine ⟨[.allow "f", .block "f", .block "g"], ⟨1, 1, false, [], []⟩, ?_⟩
+  refine ⟨[.userFin false "f", .userFin true "f", .userFin true "g"], ⟨1, 1, false, [], []⟩, ?_⟩
   decide
 
 /-! ## a vanished object ends the patching silently -/
